@@ -27,9 +27,10 @@ def line_kind(cells):
     return 'data'
 
 
-def validate(text):
+def validate(text, uniform_line_types=False):
     """-> list of problems (empty = well-formed): header first, cell count per line consistent with the spine
-    operators, uniform line types, every path terminated, nothing after the terminators."""
+    operators, every path terminated, nothing after the terminators (uniform line types only on request: the property does not
+    state it)."""
     probs = []
     lines = split_lines(text)
     if not lines:
@@ -63,7 +64,7 @@ def validate(text):
             return probs
         kinds = {('interp' if c.startswith('*') else 'bar' if c.startswith('=') else 'comment' if c.startswith('!') else 'data')
                  for c in cells}
-        if len(kinds) > 1:
+        if uniform_line_types and len(kinds) > 1:
             probs.append(f'line {i}: mixed line types {sorted(kinds)}: {cells}')
         if any(c in ('*^', '*v', '*-', '*+', '*x') for c in cells):
             new = 0
